@@ -36,7 +36,7 @@ pub fn functions() -> Vec<Function> {
 #[allow(clippy::cast_possible_truncation, clippy::cast_sign_loss)]
 pub fn chr(params: &[Value]) -> NativeResult {
     match params {
-        [Value::Number(ordinal)] if (0.0..127.0).contains(ordinal) => Ok(Value::String(
+        [Value::Number(ordinal)] if (0.0..128.0).contains(ordinal) => Ok(Value::String(
             char::from_u32(*ordinal as u32).unwrap_or('\0').to_string(),
         )),
         [Value::Number(_)] => Err(NativeError::from("number is out of ASCII range")),
